@@ -21,9 +21,11 @@ func checkC13(c *Ctx, r *Report) {
 	checkTwoPass(c, r, rows)
 	checkQRCapacities(c, r, rows)
 	checkDMLookup(c, r)
+	checkDMTables(c, r) // the table the first-fit lookup walks: sizes, capacities and their order (same obligations as under C08)
 	// the symbol is looked up for lengths the mode encoders estimate: the Base 256 estimate is decided with its length field
 	checkDMBase256(c, r)
 	checkDMWriterLookup(c, r)
+	checkQRSizedBits(c, r)
 	checkECIEmission(c, r) // the header whose length enters the version choice carries an ECI in byte mode only (also C15)
 	r.Note("not decided: that calculateBitsNeeded equals the number of bits the segment encoders later emit (loop arithmetic over the payload)")
 }
@@ -580,4 +582,83 @@ func checkDMWriterLookup(c *Ctx, r *Report) {
 		}
 	}
 	r.Check(bad == "", "M-DMSAMEHINTS", key, c.pos(f.Pos()), bad)
+}
+
+// M-SIZEDBITS: what the version was chosen for is what is written
+func checkQRSizedBits(c *Ctx, r *Report) {
+	r.Rule("M-SIZEDBITS", "Encoder_encode: the bit stream handed to terminateBits and to the interleaver is assembled from exactly the header bits and the data bits the version was chosen for (the arguments of recommendVersion / calculateBitsNeeded), in that order, with the character count between them: header bits, appendLengthInfo, data bits - nothing else is appended to it (an indicator written only into the final stream would not have been counted when the symbol was sized)", 1)
+	fd, p := c.funcDeclOf("qrcode/encoder", "Encoder_encode")
+	key := "qrcode/encoder.Encoder_encode/final-stream"
+	if fd == nil {
+		r.AnchorLost("M-SIZEDBITS", key, "function not found")
+		return
+	}
+	r.Analysed(key)
+	one := func(name string) *ast.CallExpr {
+		cs := findCalls(p, fd.Body, func(o types.Object) bool { return isFuncNamed(o, "qrcode/encoder", name) })
+		if len(cs) == 0 {
+			return nil
+		}
+		return cs[len(cs)-1]
+	}
+	rec, term, inter := one("recommendVersion"), one("terminateBits"), one("interleaveWithECBytes")
+	if rec == nil || term == nil || inter == nil || len(rec.Args) != 4 || len(term.Args) != 2 || len(inter.Args) != 4 {
+		r.Undecided("M-SIZEDBITS", key, c.pos(fd.Pos()), "recommendVersion / terminateBits / interleaveWithECBytes calls not found")
+		return
+	}
+	hdr, data, final := identObj(p, rec.Args[2]), identObj(p, rec.Args[3]), identObj(p, term.Args[1])
+	bad := ""
+	if hdr == nil || data == nil || final == nil || identObj(p, inter.Args[0]) != final {
+		bad = "?the sized header / data bits or the final stream are not plain variables (or the interleaver gets another stream than the one that was terminated)"
+	}
+	// the forced-version test must size the same two
+	for _, cb := range findCalls(p, fd.Body, func(o types.Object) bool { return isFuncNamed(o, "qrcode/encoder", "calculateBitsNeeded") }) {
+		if bad == "" && len(cb.Args) == 4 && (identObj(p, cb.Args[1]) != hdr || identObj(p, cb.Args[2]) != data) {
+			bad = "a forced version is tested with other header / data bits than the automatic choice"
+		}
+	}
+	var seq []string
+	if bad == "" {
+		walkCalls(p, fd.Body, func(cs *callSite) {
+			call := cs.Call
+			touches := false
+			if sel, ok := call.Fun.(*ast.SelectorExpr); ok && identObj(p, sel.X) == final {
+				touches = true
+			}
+			for _, a := range call.Args {
+				if identObj(p, a) == final {
+					touches = true
+				}
+			}
+			if !touches || bad != "" {
+				return
+			}
+			fn, _ := cs.Callee.(*types.Func)
+			name := ""
+			if fn != nil {
+				name = fn.Name()
+			}
+			switch {
+			case isMethodNamed(cs.Callee, "", "BitArray", "AppendBitArray") && len(call.Args) == 1:
+				switch identObj(p, call.Args[0]) {
+				case hdr:
+					seq = append(seq, "header")
+				case data:
+					seq = append(seq, "data")
+				default:
+					bad = fmt.Sprintf("%s is appended to the final stream at %s: it was not among the bits the version was chosen for", types.ExprString(call.Args[0]), c.pos(call.Pos()))
+				}
+			case name == "appendLengthInfo":
+				seq = append(seq, "count")
+			case name == "terminateBits", name == "interleaveWithECBytes":
+			case isMethodNamed(cs.Callee, "", "BitArray", "GetSize"), isMethodNamed(cs.Callee, "", "BitArray", "GetSizeInBytes"):
+			default:
+				bad = fmt.Sprintf("%s writes into (or takes) the final stream at %s: only the sized header bits, the character count and the sized data bits may go there", name, c.pos(call.Pos()))
+			}
+		})
+	}
+	if bad == "" && strings.Join(seq, ",") != "header,count,data" {
+		bad = fmt.Sprintf("the final stream is assembled as [%s]; expected header bits, character count, data bits", strings.Join(seq, ", "))
+	}
+	reportFold(r, c, "M-SIZEDBITS", key, term.Pos(), bad)
 }
